@@ -212,14 +212,14 @@ def C09():
             ("c09_rle16_exact_values", "first-scanline semantics: COLOR_RUN carries its colour exactly, FGBG bits select white/black", True),
             ("c09_rle16_fgbg_exact", "FGBG_IMAGE on a later scanline, symbolic mask: bit i selects above xor fgPel (white), else above", True),
             ("c09_rle16_set_fg_fgbg_exact", "SET_FG_FGBG_IMAGE on a later scanline, symbolic mask and foreground", False),
-            ("c09_rle16_dithered_setfg_exact", "DITHERED_RUN colours and SET_FG_FG_RUN foreground carried exactly (first scanline)", False),
+            ("c09_rle16_pair_setfg_exact", "DITHERED_RUN colours and SET_FG_FG_RUN foreground carried exactly (first scanline)", False),
             ("c09_rle16_bg_bg_cross_line", "two consecutive BG_RUNs, the second crossing a scanline end: the foreground pixel is inserted exactly once", True),
             ("c09_rle16_mega_fgbg", "MEGA_MEGA FGBG_IMAGE: the 16-bit count is a pixel count (not multiplied by 8), symbolic mask", True),
             ("c09_rle16_mega_set_fg_fgbg", "MEGA_MEGA SET_FG_FGBG_IMAGE: pixel count, symbolic mask and foreground", False),
             ("c09_rle16_mega_bg_fg_image", "MEGA_MEGA BG_RUN, FG_RUN and COLOR_IMAGE on the first scanline", False),
             ("c09_rle16_long_regular_color_run", "long regular form (extra byte + 32): COLOR_RUN of 33 through the unrolled loop and its tail", False),
             ("c09_rle16_long_lite_set_fg_run", "long lite form (extra byte + 16): SET_FG_FG_RUN of 17", False),
-            ("c09_rle16_fg_run_cross_line", "FG_RUN crossing scanline ends on later scanlines", True),
+            ("c09_rle16_fgrun_cross_line", "FG_RUN crossing scanline ends on later scanlines", True),
             ("c09_rle16_unrolled_color_run", "the decoder's 8-way unrolled loop: COLOR_RUN of 10 on a 10-pixel scanline", True)):
         jobs.append(Kani(h, "interleaved 16 bpp RLE, concrete order headers / symbolic values: " + claim, tiers=("quick", "thorough") if q else ("thorough",),
                          bounds={"image": "Wx2 (W = 2..10)", "orders": "one concrete order sequence per harness"}, symbolic=["pixels", "colours", "masks"],
